@@ -35,3 +35,13 @@ Theorem C03_bytes_guard : forall B p n, 0 <= n -> p + n > 8 * zlen B ->
   read_as_bytes {| cdata := B; cpos := p |} n = Err EValue.
 Proof. exact read_bytes_guard. Qed.
 Print Assumptions C03_bytes_guard.
+
+(* two consecutive integer reads return the high and the low part of what a single read of the joint
+   width returns, and leave the same cursor: no bit is skipped or read twice between reads *)
+Theorem C03_reads_compose : forall B p n m, wf B -> 0 <= p -> 0 <= n -> 0 <= m -> p + n + m <= 8 * zlen B ->
+  exists v1 v2 c1,
+    read_as_int {| cdata := B; cpos := p |} n = Ok (v1, c1) /\
+    read_as_int c1 m = Ok (v2, {| cdata := B; cpos := p + n + m |}) /\
+    read_as_int {| cdata := B; cpos := p |} (n + m) = Ok (v1 * 2 ^ m + v2, {| cdata := B; cpos := p + n + m |}).
+Proof. exact reads_compose. Qed.
+Print Assumptions C03_reads_compose.
